@@ -529,7 +529,7 @@ def execute(plan, want_logs=False):
 # --------------------------------------------------------------------------------------
 WALK_CAP = 250
 WALK_CAP_HEAVY = {"separation": 8, "sonify": 24, "hierarchy": 40}
-WALK_OPS = {"quick": 320, "thorough": 8000}
+WALK_OPS = {"quick": 320, "thorough": 6000}
 
 
 def gen_walk_plan(rng, tier, i):
